@@ -7,7 +7,7 @@ import subprocess
 import build
 import harness
 import session
-from c15 import parse_gen
+from c15 import parse_gen, parse_elems, expected_layout
 
 G1C, G1U, G2C, G2U, GT = 48, 96, 96, 192, 576
 KINDS = ['wparams', 'wmaster', 'wsk', 'wct', 'wsig', 'lparams', 'lid', 'lmaster', 'lsk', 'lct']
@@ -42,9 +42,30 @@ def fixed_len(kind, c):
 def hostile(valid, rng, quick):
     """valid: list of (kind, c, bytes).  yields (label, kind, c, checked, bytes)"""
     out = []
-    for kind, c, data in valid:
+    for kind, c, data, pts in valid:
         for chk in (1, 0):
             out.append(('valid', kind, c, chk, data))
+        # every embedded point replaced by the encoding of the identity (a VALID element, so parsing continues past it), by an
+        # identity flag followed by junk early / late in the element, and the whole buffer at every byte alignment: element parsers
+        # that read their bytes as wider words see them at odd addresses (UBSan alignment) or run past the block (ASan)
+        sel = pts if (len(pts) <= 4 or not quick) else rng.sample(pts, 4)
+        for tag, off, n in sel:
+            ident = bytearray(n)
+            ident[0] = 0x40 | (0x80 if c else 0)
+            late = bytearray(ident)
+            late[rng.randrange(4, n)] = rng.randrange(1, 256)
+            early = bytearray(ident)
+            early[rng.randrange(1, 4)] = rng.randrange(1, 256)
+            for lab, el in (('identity-element', ident), ('identity-flag-junk-late', late), ('identity-flag-junk-early', early)):
+                out.append((lab, kind, c, 1 if lab == 'identity-element' else rng.randrange(2), data[:off] + bytes(el) + data[off + n:], rng.randrange(4)))
+            out.append(('identity-element', kind, c, 0, data[:off] + bytes(ident) + data[off + n:], rng.randrange(4)))
+        allid = bytearray(data)
+        for tag, off, n in pts:
+            allid[off:off + n] = bytes([0x40 | (0x80 if c else 0)]) + bytes(n - 1)
+        if pts:
+            out.append(('identity-element', kind, c, 1, bytes(allid), 0))
+        for shift in (1, 2, 3):
+            out.append(('valid-misaligned', kind, c, 1, data, shift))
         cuts = [1, 2, 3, 4, 47, 48, 49, 51, 52, 53, 95, 96, 97, 99, 100, 101] + [rng.randrange(1, 101) for _ in range(2 if quick else 10)]
         for k in cuts:
             if len(data) > k:
@@ -85,14 +106,20 @@ def worker(sh):
         if out is None:
             continue
         for d in parse_gen(' '.join(out)):
-            valid.append((d['kind'], int(d['c']), d['bytes']))
+            try:
+                layout, total = expected_layout(parse_elems(d['elems']), bool(int(d['c'])), d['kind'])
+                pts = [(tag, off, n) for tag, off, n, _, _ in layout if tag in ('1', '2')] if total == len(d['bytes']) else []
+            except Exception:
+                pts = []
+            valid.append((d['kind'], int(d['c']), d['bytes'], pts))
     if sh.quick:
         valid = [v for v in valid if v[0] in ('wparams', 'wsk') or rng.random() < 0.35]
     cases = hostile(valid, rng, sh.quick)
-    lines = ['unm %s %d %d %s' % (kind, c, chk, data.hex() if data else '-') for (label, kind, c, chk, data) in cases]
+    cases = [(t + (0,))[:6] for t in cases]
+    lines = ['unm %s %d %d %s %d' % (kind, c, chk, data.hex() if data else '-', shift) for (label, kind, c, chk, data, shift) in cases]
     for cfg in sh.payload['cfgs']:
         res = sh.run(cfg, lines)
-        for (label, kind, c, chk, data), line, out in zip(cases, lines, res):
+        for (label, kind, c, chk, data, shift), line, out in zip(cases, lines, res):
             if out is None:
                 continue
             kv = {t.split('=')[0]: t.split('=')[1] for t in out if '=' in t}
@@ -117,7 +144,7 @@ def worker(sh):
                     fail('accepted-length', 'accepted object reports marshalled length %s, buffer had %d' % (kv['getlen'], len(data)))
                 # (byte-identical re-marshalling is not required by the property: the flag byte is normalised to 0/1 and the GT
                 #  coefficients of a ciphertext are reduced; the driver has re-marshalled the object into a buffer of getlen bytes)
-            if label == 'valid' and acc != 1:
+            if label in ('valid', 'valid-misaligned') and acc != 1:
                 fail('valid-rejected', 'the library\'s own bytes were rejected')
             if cfg == sh.payload['cfgs'][0]:
                 sh.event('unmarshal:%s' % kind, '%s/%s' % (label, {1: 'accepted', 0: 'rejected', -2: 'rejected-by-length'}.get(acc, '?')))
@@ -148,7 +175,7 @@ def worker(sh):
         small = sorted([v for v in valid if v[0] in ('wparams', 'wsk')], key=lambda v: len(v[2]))[:4 if sh.quick else 12]
         pl = []
         pm = []
-        for kind, c, data in small:
+        for kind, c, data, _ in small:
             for n in range(1, len(data)):
                 pl.append('unm %s %d %d %s' % (kind, c, n & 1, data[:n].hex()))
                 pm.append((kind, c, data[:n]))
@@ -166,7 +193,7 @@ def worker(sh):
                 if cfg == 'san':
                     sh.event('unmarshal:%s' % kind, 'every-prefix/%s' % ('parsed' if exp != -1 else 'rejected-by-length'))
     if sh.index == 0:
-        for lab, kind, c, chk, data in cases[:400:80]:
+        for lab, kind, c, chk, data, _ in cases[:400:80]:
             sh.sample({'label': lab, 'kind': kind, 'compressed': c, 'checked': chk, 'length': len(data), 'head': data[:16].hex()}, limit=5)
     # stage 3: field/group/pairing operations with operands flush against guard pages (assembly is invisible to ASan)
     res = sh.run('guard-end', ['fieldguard %d %d' % (rng.getrandbits(40), sh.pick(10, 100))])
@@ -234,7 +261,7 @@ def run(ctx):
     ctx.extra['buffer_configs'] = cfgs
     ctx.extra['sanitizer_configs'] = san_cfgs
     ctx.assumptions = ['ASan sees heap/stack/global red zones only (intra-object overruns: C08 cursor monitor, C06 guard words)', 'Go bindings themselves are not executed; their allocation protocol is reproduced in C']
-    need = ['length-discovery-sweep:wparams|c/firstbyte1', 'length-discovery-sweep:wsk|u/firstbyte1', 'length-discovery-sweep:wsk|c/firstbyte255', 'unmarshal:wsk|every-prefix', 'unmarshal:wparams|truncated', 'unmarshal:wsk|truncated', 'unmarshal:wsk|extended', 'unmarshal:wparams|valid/accepted', 'unmarshal:wsk|valid/accepted', 'unmarshal:wsk|first-byte-0',
+    need = ['length-discovery-sweep:wparams|c/firstbyte1', 'length-discovery-sweep:wsk|u/firstbyte1', 'length-discovery-sweep:wsk|c/firstbyte255', 'unmarshal:wsk|every-prefix', 'unmarshal:wparams|truncated', 'unmarshal:wsk|truncated', 'unmarshal:wsk|extended', 'unmarshal:wparams|valid/accepted', 'unmarshal:wsk|valid/accepted', 'unmarshal:wsk|first-byte-0', 'unmarshal:wparams|identity-element/accepted', 'unmarshal:wsk|identity-element', 'unmarshal:wsk|valid-misaligned/accepted', 'unmarshal:lid|valid-misaligned',
             'guard-page:field-group-pairing|completed', 'sanitized-workload:C11|san', 'sanitized-workload:C15|san', 'sanitized-workload:C02|san']
     for r in need:
         if not any(k.startswith(r) for k in ctx.classes):
